@@ -1,5 +1,6 @@
 import EupsModel.Lemmas.VersionMatch
 import EupsModel.Lemmas.VersionAcross
+import EupsModel.Lemmas.VersionExpr
 import EupsModel.Lemmas.VersionLex
 /-! C10 — version names are ordered consistently: property theorems.
 
@@ -322,6 +323,173 @@ theorem C10_match_implicit_eq (x v : Str) (hv : wfName v) (h1 : v ≠ sAnd) (h2 
   have htok := tokenize_render (opEq, v) [] ⟨Or.inr (Or.inr (Or.inl rfl)), hv⟩ (by simp)
   have e1 : hasRelop opEq = true := by decide
   simp [versionMatch, htok, tokenize_name hv, tailToks, matchLoop, hasRelop_name hv.2, plainTok_name hv, h1, h2, e1]
+
+/-! ## relational requests: every text the parser reads as a chain
+
+`renderG lead t ls trail` is the text: blanks, a term, then operators-with-terms (`Link`), blanks.  A term is
+`op blanks version` or a bare `version` (read as `== version`); an operator is `||` (blanks optional) or
+one of the words `or`, `&&`, `and` (a blank needed on either side, the splitting pattern does not know
+them).  `C10_match_iff` above is the instance "explicit operators, single blanks, `||`". -/
+
+/-- the term holds in the (strict-mode) order -/
+def Holds (x : Str) (t : GTerm) : Prop := ∃ r, stdCompare true x t.name = .ok r ∧ relSem (t.op.getD opEq) r
+
+theorem holds_iff (x : Str) (t : GTerm) (ht : t.Wf) : termHolds (stdCompare true) x t.term = true ↔ Holds x t :=
+  termHolds_iff (stdCompare true) x t.term (GTerm.term_relop ht)
+
+/-- **Alternatives, whatever the spacing and the spelling** (`||` or `or`, operators explicit or implied):
+the request accepts exactly the versions that the order puts in the stated relation to one of its terms. -/
+theorem C10_match_iff_general (x lead : Str) (t : GTerm) (os : List Link) (trail : Str)
+    (hlead : isWs lead) (ht : t.Wf) (hls : ∀ l ∈ os, l.Wf) (htr : isWs trail) (hor : ∀ l ∈ os, l.isOr)
+    (hcmp : ∀ y ∈ t :: os.map Link.term, ∃ r, stdCompare true x y.name = .ok r) :
+    versionMatch x (renderG lead t os trail) = .ok true ↔ ∃ y ∈ t :: os.map Link.term, Holds x y := by
+  simp only [versionMatch]
+  rw [versionMatch_renderG (stdCompare true) x lead t os trail hlead ht hls htr hcmp, evalLinks_or _ _ os hor]
+  simp only [Except.ok.injEq, Bool.or_eq_true, List.any_eq_true, List.mem_cons, List.mem_map, exists_eq_or_imp]
+  rw [holds_iff x t ht]
+  constructor
+  · rintro (h | ⟨l, hl, h⟩)
+    · exact Or.inl h
+    · exact Or.inr ⟨l.term, ⟨l, hl, rfl⟩, (holds_iff x l.term (hls l hl).2.2.1).mp h⟩
+  · rintro (h | ⟨y, ⟨l, hl, rfl⟩, h⟩)
+    · exact Or.inl h
+    · exact Or.inr ⟨l, hl, (holds_iff x l.term (hls l hl).2.2.1).mpr h⟩
+
+/-- **`&&` / `and` chains** (documented as not supported; the code reads them): a conjunction. -/
+theorem C10_match_and_chain (x lead : Str) (t : GTerm) (as : List Link) (trail : Str)
+    (hlead : isWs lead) (ht : t.Wf) (hls : ∀ l ∈ as, l.Wf) (htr : isWs trail) (hand : ∀ l ∈ as, l.isAnd)
+    (hcmp : ∀ y ∈ t :: as.map Link.term, ∃ r, stdCompare true x y.name = .ok r) :
+    versionMatch x (renderG lead t as trail) = .ok true ↔ ∀ y ∈ t :: as.map Link.term, Holds x y := by
+  simp only [versionMatch]
+  rw [versionMatch_renderG (stdCompare true) x lead t as trail hlead ht hls htr hcmp]
+  have e := evalLinks_and (fun t => termHolds (stdCompare true) x t.term) (termHolds (stdCompare true) x t.term) as [] hand
+  simp only [List.append_nil] at e
+  rw [e]
+  have hall : (∀ y ∈ t :: as.map Link.term, Holds x y) ↔
+      (termHolds (stdCompare true) x t.term = true ∧ ∀ l ∈ as, termHolds (stdCompare true) x l.term.term = true) := by
+    simp only [List.mem_cons, List.mem_map, forall_eq_or_imp, holds_iff x t ht]
+    constructor
+    · rintro ⟨h1, h2⟩; exact ⟨h1, fun l hl => (holds_iff x l.term (hls l hl).2.2.1).mpr (h2 l.term ⟨l, hl, rfl⟩)⟩
+    · rintro ⟨h1, h2⟩; exact ⟨h1, by rintro y ⟨l, hl, rfl⟩; exact (holds_iff x l.term (hls l hl).2.2.1).mp (h2 l hl)⟩
+  rw [hall]
+  rcases List.eq_nil_or_concat as with rfl | ⟨init, z, rfl⟩
+  · simp [evalLinks]
+  · simp only [List.concat_eq_append, List.getLast?_append, List.getLast?_singleton, Option.some_or,
+      List.dropLast_concat, evalLinks, Except.ok.injEq, Bool.and_eq_true, List.all_eq_true, List.mem_append,
+      List.mem_singleton]
+    constructor
+    · rintro ⟨⟨h1, h2⟩, h3⟩
+      exact ⟨h1, by rintro l (hl | rfl); exact h2 l hl; exact h3⟩
+    · rintro ⟨h1, h2⟩
+      exact ⟨⟨h1, fun l hl => h2 l (Or.inl hl)⟩, h2 z (Or.inr rfl)⟩
+
+/-- **Mixed chains, exactly**: `t && a₁ … && aₖ && z || o₁ … || oₘ [&& …]` is read as
+`t ∧ a₁ ∧ … ∧ aₖ ∧ (z ∨ o₁ ∨ … ∨ oₘ)`, and whatever follows an `&&` that comes after an `||` is never looked
+at — neither the usual precedence nor left-to-right evaluation (see `C10_mixed_logop_witness`). -/
+theorem C10_match_mixed (x lead : Str) (t : GTerm) (init : List Link) (z : Link) (os rest : List Link) (trail : Str)
+    (hlead : isWs lead) (ht : t.Wf) (hls : ∀ l ∈ init ++ z :: (os ++ rest), l.Wf) (htr : isWs trail)
+    (hand : ∀ l ∈ init, l.isAnd) (hz : z.isAnd) (hor : ∀ l ∈ os, l.isOr)
+    (hrest : (rest = [] ∨ os ≠ []) ∧ ∀ l ∈ rest.head?, l.isAnd)
+    (hcmp : ∀ y ∈ t :: (init ++ z :: (os ++ rest)).map Link.term, ∃ r, stdCompare true x y.name = .ok r) :
+    versionMatch x (renderG lead t (init ++ z :: (os ++ rest)) trail) = .ok true ↔
+      Holds x t ∧ (∀ l ∈ init, Holds x l.term) ∧ (Holds x z.term ∨ ∃ l ∈ os, Holds x l.term) := by
+  simp only [versionMatch]
+  rw [versionMatch_renderG (stdCompare true) x lead t _ trail hlead ht hls htr hcmp]
+  have e1 : init ++ z :: (os ++ rest) = (init ++ [z]) ++ (os ++ rest) := by simp
+  have hand' : ∀ l ∈ init ++ [z], l.isAnd := by
+    intro l hl
+    rcases List.mem_append.mp hl with h | h
+    · exact hand l h
+    · simp only [List.mem_singleton] at h; subst h; exact hz
+  rw [e1, evalLinks_and _ _ (init ++ [z]) (os ++ rest) hand']
+  simp only [List.getLast?_append, List.getLast?_singleton, Option.some_or, List.dropLast_concat]
+  have htail : evalLinks (fun t => termHolds (stdCompare true) x t.term) (termHolds (stdCompare true) x z.term.term) (os ++ rest) =
+      (termHolds (stdCompare true) x z.term.term || os.any (fun l => termHolds (stdCompare true) x l.term.term)) := by
+    by_cases hos : os = []
+    · subst hos
+      rcases hrest.1 with h | h
+      · subst h; simp [evalLinks]
+      · exact absurd rfl h
+    · exact evalLinks_or_then_and _ _ os rest hor hos hrest.2
+  rw [htail]
+  have hwf : ∀ l ∈ init ++ z :: (os ++ rest), (termHolds (stdCompare true) x l.term.term = true ↔ Holds x l.term) :=
+    fun l hl => holds_iff x l.term (hls l hl).2.2.1
+  simp only [Except.ok.injEq, Bool.and_eq_true, List.all_eq_true, Bool.or_eq_true, List.any_eq_true, holds_iff x t ht]
+  constructor
+  · rintro ⟨⟨h1, h2⟩, h3⟩
+    refine ⟨h1, fun l hl => (hwf l (by simp [hl])).mp (h2 l hl), ?_⟩
+    rcases h3 with h | ⟨l, hl, h⟩
+    · exact Or.inl ((hwf z (by simp)).mp h)
+    · exact Or.inr ⟨l, hl, (hwf l (by simp [hl])).mp h⟩
+  · rintro ⟨h1, h2, h3⟩
+    refine ⟨⟨h1, fun l hl => (hwf l (by simp [hl])).mpr (h2 l hl)⟩, ?_⟩
+    rcases h3 with h | ⟨l, hl, h⟩
+    · exact Or.inl ((hwf z (by simp)).mpr h)
+    · exact Or.inr ⟨l, hl, (hwf l (by simp [hl])).mpr h⟩
+
+/-- … and `t || o₁ … || oₘ && …`: the alternatives up to the first `&&`; the rest is ignored. -/
+theorem C10_match_or_then_and (x lead : Str) (t : GTerm) (os rest : List Link) (trail : Str)
+    (hlead : isWs lead) (ht : t.Wf) (hls : ∀ l ∈ os ++ rest, l.Wf) (htr : isWs trail)
+    (hor : ∀ l ∈ os, l.isOr) (hos : os ≠ []) (hrest : ∀ l ∈ rest.head?, l.isAnd)
+    (hcmp : ∀ y ∈ t :: (os ++ rest).map Link.term, ∃ r, stdCompare true x y.name = .ok r) :
+    versionMatch x (renderG lead t (os ++ rest) trail) = .ok true ↔ ∃ y ∈ t :: os.map Link.term, Holds x y := by
+  simp only [versionMatch]
+  rw [versionMatch_renderG (stdCompare true) x lead t _ trail hlead ht hls htr hcmp,
+    evalLinks_or_then_and _ _ os rest hor hos hrest]
+  simp only [Except.ok.injEq, Bool.or_eq_true, List.any_eq_true, List.mem_cons, List.mem_map, exists_eq_or_imp]
+  rw [holds_iff x t ht]
+  constructor
+  · rintro (h | ⟨l, hl, h⟩)
+    · exact Or.inl h
+    · exact Or.inr ⟨l.term, ⟨l, hl, rfl⟩, (holds_iff x l.term (hls l (by simp [hl])).2.2.1).mp h⟩
+  · rintro (h | ⟨y, ⟨l, hl, rfl⟩, h⟩)
+    · exact Or.inl h
+    · exact Or.inr ⟨l, hl, (holds_iff x l.term (hls l (by simp [hl])).2.2.1).mpr h⟩
+
+/-- The request never fails on such a text (every comparison defined). -/
+theorem C10_match_total_general (x lead : Str) (t : GTerm) (ls : List Link) (trail : Str)
+    (hlead : isWs lead) (ht : t.Wf) (hls : ∀ l ∈ ls, l.Wf) (htr : isWs trail)
+    (hcmp : ∀ y ∈ t :: ls.map Link.term, ∃ r, stdCompare true x y.name = .ok r) :
+    ∃ b, versionMatch x (renderG lead t ls trail) = .ok b :=
+  ⟨_, versionMatch_renderG (stdCompare true) x lead t ls trail hlead ht hls htr hcmp⟩
+
+/-! ## which version arguments are requests (`Eups.isLegalRelativeVersion`) -/
+
+/-- A chain with an explicit operator in any of its terms is taken as a relational request … -/
+theorem C10_legal_relational (lead : Str) (t : GTerm) (ls : List Link) (trail : Str)
+    (y : GTerm) (hy : y ∈ t :: ls.map Link.term) (o : Str) (ho : y.op = some o) (hr : isRelop o) :
+    isLegalRelativeVersion (renderG lead t ls trail) = .relational := legal_renderG lead t ls trail y hy o ho hr
+
+/-- … a well-formed name is a plain version … -/
+theorem C10_legal_name_plain (v : Str) (hv : wfName v) : isLegalRelativeVersion v = .plain := legal_name v hv
+
+/-- … and `= version` (a single `=` followed by a blank) is refused with "did you mean '=='?". -/
+theorem C10_legal_single_equals (lead gap v : Str) (hl : isWs lead) (hg : isWs gap) (hgne : gap ≠ []) (hv : wfName v) :
+    isLegalRelativeVersion (lead ++ 61 :: (gap ++ v)) = .badSyntax := legal_single_equals lead gap v hl hg hgne hv
+
+/-! non-vacuity and instances -/
+def t_ge (v : Str) : GTerm := ⟨some opGe, [32], v⟩
+def t_lt (v : Str) : GTerm := ⟨some opLt, [], v⟩
+def t_bare (v : Str) : GTerm := ⟨none, [], v⟩
+#guard Str.toString (renderG [32] (t_ge n_1d9) [⟨[], .barbar, [], t_lt n_1d2⟩, ⟨[32], .orW, [9], t_bare n_1d10⟩] [32]) == " >= 1.9||<1.2 or\t1.10 "
+example : versionMatch n_1d10 (renderG [32] (t_lt n_1d9) [⟨[], .barbar, [], t_lt n_1d2⟩, ⟨[32], .orW, [9], t_bare n_1d10⟩] [32]) = .ok true := by decide
+example : versionMatch n_1d9 (renderG [32] (t_lt n_1d9) [⟨[], .barbar, [], t_lt n_1d2⟩, ⟨[32], .orW, [9], t_bare n_1d10⟩] [32]) = .ok false := by decide
+example : (t_ge n_1d9).Wf :=
+  ⟨⟨by decide, by decide⟩, by intro c hc; simp [t_ge] at hc; subst hc; decide,
+    by intro o h; cases h; exact Or.inr (Or.inr (Or.inr (Or.inl rfl))), by intro h; cases h⟩
+example : (t_bare n_1d10).Wf :=
+  ⟨⟨by decide, by decide⟩, (by intro c hc; simp [t_bare] at hc), (by intro o h; simp [t_bare] at h), fun _ => by decide⟩
+example : isLegalRelativeVersion [49, 46, 50, 32, 124, 124, 32, 49, 46, 51] = .plain := by decide   -- `1.2 || 1.3`: no operator, a plain version name
+example : isLegalRelativeVersion [61, 49, 46, 48] = .plain := by decide                             -- `=1.0`
+
+/-- `&&` and `||` together have neither the usual precedence nor left-to-right evaluation (`&&` is documented as
+"not supported"): `1.10` matches `< 1.2 || >= 1.9 && < 1.9` (the `&&` after the `||` is never reached), and `1.2`
+does not match `>= 1.9 && < 1.10 || == 1.2` (a false first conjunct ends the evaluation). -/
+theorem C10_mixed_logop_witness :
+    versionMatch n_1d10 (renderG [] (t_lt n_1d2) [⟨[32], .barbar, [32], t_ge n_1d9⟩, ⟨[32], .ampamp, [32], t_lt n_1d9⟩] []) = .ok true ∧
+    stdCompare true n_1d10 n_1d9 = .ok 1 ∧
+    versionMatch n_1d2 (renderG [] (t_ge n_1d9) [⟨[32], .ampamp, [32], t_lt n_1d10⟩, ⟨[32], .barbar, [32], t_bare n_1d2⟩] []) = .ok false ∧
+    stdCompare true n_1d2 n_1d2 = .ok 0 := by decide
 
 /-! ## latest -/
 
